@@ -359,6 +359,10 @@ class System:
             for j in range(i):
                 d['dep_%d_%d' % (i, j)] = self.dep[i][j]
             d['root_%d' % i] = self.root[i]
+        for c in getattr(self.main, 'dup_syms', []):
+            d[c.decl().name()] = c
+        # assumption (stated): file watchers can be created when an actor is launched
+        d['watcher_fails#0'] = F
         return d
 
     # ------------------------------------------------------------------ effects
@@ -476,10 +480,13 @@ class System:
             elif kind == 'new_channel':
                 S = dict(S)
                 S['cancel.%d' % i] = F
+                obs.add('decide', i, g)      # a build actor creates its cancellation channel when it decides to build
             elif kind == 'spawn':
                 S = dict(S)
                 S['proc.%d' % i] = T
                 obs.add('spawn', i, g)
+            elif kind == 'spawn_failed':
+                obs.add('spawn_failed', i, g)
             elif kind == 'kill':
                 obs.add('kill', i, g)
             elif kind == 'reap':
@@ -757,6 +764,12 @@ class System:
             u.states.append(S)
             u.obs.append(ob)
             u.ghosts.append(ghost)
+        # enabledness in the final state (for completeness / quiescence obligations)
+        subs = [(t['cur'][n], zb(S[n])) for n in t['cur']]
+        for (who, n), c in t['oracles'].items():
+            nm = 'o%d.%s.%s' % (K, who, n)
+            subs.append((c, z3.Bool(nm) if z3.is_bool(c) else z3.BitVec(nm, c.size())))
+        u.enabled.append([z3.substitute(zb(e), *subs) for e in t['enabled']])
         return u
 
     def _fresh_one(self, name, v, u):
